@@ -81,8 +81,14 @@ pub fn run(ctx: &mut Ctx, reg: &Registry) {
                     j.push("schedules", J::s(format!("writer fails at every offset 0..{0} (kinds Other/BrokenPipe/UnexpectedEof/PermissionDenied, chunk limits 1/5/64/unlimited); reader fails at every offset 0..{0}; 8 short-write/Interrupted writer schedules; 8 chunked/Interrupted reader schedules", full.len())));
                     j
                 });
-                writer_faults(ctx, s, v, &full, &plain, c, &mut rng);
-                writer_chunking(ctx, s, v, &full, &plain, c, &mut rng);
+                // the writer-side oracles compare bytes of separate saves of equal values: only meaningful for
+                // types whose encoding is a function of the value (no hash-ordered containers inside)
+                if model::deterministic(&shape) {
+                    writer_faults(ctx, s, v, &full, &plain, c, &mut rng);
+                    writer_chunking(ctx, s, v, &full, &plain, c, &mut rng);
+                } else {
+                    ctx.count("writer_oracles_skipped_unordered_container");
+                }
                 reader_chunking(ctx, s, v, &expected, &full, c, &mut rng);
                 reader_faults(ctx, s, v, &expected, &full, c);
             }
